@@ -17,7 +17,7 @@ EXPLANATION = (
     "stride gv.sps, compares |sample| > threshold, and the threshold is THRESHOLD_EST of the eye measured on the same waveform. C03.3: "
     "ppm.DSP hard = PPM_DECODER(HDD(SAMPLER(x, sps//2) > rth, M), M) with rth = the given threshold, else the eye's KDE threshold, else "
     "THRESHOLD_EST(eye, M); soft = PPM_DECODER(SDD(x, M), M). C03.4: the sampling instant of both chains is the offset at which DAC places "
-    "its Gaussian pulse pair (sps//2, sps//2-1) and lies inside the NRZ slot. The transfer functions of the blocks themselves are decided "
+    "its Gaussian pulse pair (sps//2, sps//2-1) and lies inside the NRZ slot. C03.6: for a field without a noise component, in both polarisation layouts, PD hands electrical_signal a signal current and a noise current with one entry per sample each (coarse shape typing scalar / N / 2xN of the value forms). The transfer functions of the blocks themselves are decided "
     "under C05, C06, C09, C11, C12, C17. NOT decided: that the composed chain recovers every bit pattern for every configuration.")
 TRUSTED = ["the per-block properties C05, C06, C09, C11, C12, C17", "numpy comparison/sum semantics"]
 LEVEL_TEXT = ("Partial, structural: decides the wiring of ook.DSP / ppm.DSP (sampling instant, comparator, threshold source, decoder order) and the "
